@@ -5,7 +5,7 @@ and an independent solid-angle winding oracle classifies every cell centre of ev
 import json
 import vf, progfam
 
-OWNED = {'cells', 'volume', 'status', 'winding'}
+OWNED = {'cells', 'volume', 'status', 'winding', 'genpos'}
 
 def main(tier):
     chk = vf.Check('C02', tier, 'exploration')
@@ -34,6 +34,16 @@ def main(tier):
     total += n; nontriv += nt; samples.append(progfam.expr_text(json.loads(ebehs[7])))
     n, nt = progfam.replay(chk, ebehs, 4, ['--eager'], OWNED, tag='T2E', mode='expr')
     total += n
+    # (4) general position: every (primitive x primitive x op x pose) class of GenPos.tla instantiated with seeded generic
+    #     float parameters; sample points classified by the winding oracle on A, B and the result; inclusion-exclusion,
+    #     commutativity, Split and plane splits on volumes and sample points
+    gbehs, r = progfam.generate('GenPos.cfg', module='GenPos')
+    n, nt = progfam.replay(chk, gbehs, 0, ['--seed=%d' % vf.seed(), '--reps=%d' % (1 if tier == 'quick' else 12), '--points=%d' % (60 if tier == 'quick' else 300)],
+                           OWNED, tag='genpos', mode='genpos', jobs=12, chunk=30,
+                           sig_of=lambda f, beh: '%s|%s' % (f['kind'], json.dumps(beh)[:200]))
+    total += n; nontriv += nt; samples.append(gbehs[0][:200])
+    chk.coverage['general_position_classes'] = n
+    chk.coverage['general_position_points_judged'] = sum(x.get('judged', 0) for x in chk.last_results.values())
     if tier == 'thorough':
         behs, r = progfam.generate('GenC02triples.cfg', timeout=3000)
         n, nt = progfam.replay(chk, behs, 1, ['--eager'], OWNED, tag='triples', timeout=6000)
@@ -47,7 +57,7 @@ def main(tier):
                 'cell centres by the independent winding oracle and compared with Lattice.tla set algebra',
         'samples': samples, 'exhaustive': False})
     chk.assumptions += ['cell centres are >=0.5 from every lattice plane, so double arithmetic decides the solid-angle winding sum',
-                        'general-position (non-lattice) operands are not covered by this check']
+                        'general position: finitely many seeded sample points per class; points within 4x tolerance of an input surface are excluded as the property states']
     chk.finish()
 
 def replay(path):
